@@ -46,9 +46,14 @@ def factorize_arrow_arr(
 def _monotonic_factorization(arr_list, total_len):
     codes = np.empty(total_len, dtype=np.uint32)
     labels = np.empty(total_len, dtype=arr_list[0].dtype)
+    if total_len == 0:
+        return 0, codes, labels
 
     arr_num = 0
     arr = arr_list[arr_num]
+    while len(arr) == 0:  # skip empty leading chunks
+        arr_num += 1
+        arr = arr_list[arr_num]
 
     if arr[0] != arr[0]:
         # a null (NaN / NaT) compares neither smaller nor larger: no monotonic prefix
@@ -62,7 +67,7 @@ def _monotonic_factorization(arr_list, total_len):
     cur_arr_pos = 0
     for i in range(1, total_len):
         cur_arr_pos += 1
-        if cur_arr_pos == len(arr):
+        while cur_arr_pos == len(arr):  # also skips empty chunks
             arr_num += 1
             arr = arr_list[arr_num]
             cur_arr_pos = 0
